@@ -80,6 +80,10 @@ def check_key_pubkey(rep, prog):
             if e[0] == 'ior' and e[1] == cur:
                 attached.append(e[2])
                 cur = '(%s | %s)' % (cur, e[2])
+            elif e[0] == 'call' and e[1] == '%s.__or__' % cur and len(e[2]) == 1:
+                attached.append(e[2][0])          # twin.__or__(x) (result dropped): the in-place attachment, the twin itself stays
+        if not attached and render(s.env.get(twin, Sym(twin))) != twin:
+            raise AnalysisError('PGPKey.pubkey: how the twin is filled is not understood (%s)' % render(s.env.get(twin))[:120])
         vals = sorted(set(expand_bound(s, v) for v in attached))
         for v in attached:
             for b in re.findall(r'\$[\d.]*\d', v):
@@ -152,7 +156,8 @@ def _check_attach_conditions(rep, prog, g, me, sib, colls, twin_key_stores):
         bad = None
         for assign in assignments(outs):
             for s in [x for x in outs if consistent(x, assign)]:
-                att = any(e[0] == 'ior' and re.search(r'\bE[KV]\b', e[2]) for e in s.events)
+                att = any((e[0] == 'ior' and re.search(r'\bE[KV]\b', e[2])) or
+                          (e[0] == 'call' and e[1].endswith('.__or__') and any(re.search(r'\bE[KV]\b', a) for a in e[2])) for e in s.events)
                 if is_sig:
                     orphan = assign.get(('eq', frozenset(('EV._parent', 'None'))))
                     emb = assign.get(('expr', 'EV.embedded'))
@@ -339,6 +344,9 @@ def check_export(rep, prog):
                     flat.append(it)
         walk(its)
         srcs = sorted(set(expand_bound(s, it[1]) for it in flat if it[0] == 'SYM'))
+        if not isinstance(s.ret, Bytes) or any(it[0] != 'SYM' for it in flat) or \
+                any(not re.match(r'^[\w.$\[\]*()]+\.__bytearray__\(\)$', x) for x in srcs):
+            raise AnalysisError('PGPKey.__bytearray__: export not understood as a sequence of serialised packets: %s' % render(s.ret)[:160])
         allowed = {t.replace('self', f.params[0], 1) for t in (
             'self._key.__bytearray__()', 'self._signatures[*].__bytearray__()', 'self._uids[*]._uid.__bytearray__()',
             'self._uids[*]._signatures[*].__bytearray__()', 'self._children.values()[*].__bytearray__()',
@@ -439,6 +447,11 @@ def _public_predicate(rep, prog, fn, construct, obj, pubname, privname, rid):
             if isinstance(n, ast.IfExp):
                 t = ev(n.test)
                 return None if t is None else ev(n.body if t else n.orelse)
+            if isinstance(n, ast.Call) and dotted(n.func) in ('all', 'any') and len(n.args) == 1 and isinstance(n.args[0], (ast.Tuple, ast.List)):
+                vs = [ev(x) for x in n.args[0].elts]
+                if any(v is None for v in vs):
+                    return None
+                return all(vs) if dotted(n.func) == 'all' else any(vs)
             if isinstance(n, ast.Call):
                 t = ast.unparse(n).replace(' ', '')
                 if t == atom_pub:
